@@ -409,7 +409,23 @@ LEDGER_TEXT = ('Theorems (Coq): conservation of owned values for every operation
                'per step, live objects compared at the end of each history; refinement Model ~ Spec as for C01. D-tie: the ledger events of every store / take / duplicate / '
                'clone in the data-touching functions translated from the source on every run equal the Model\'s (Props/DTie.v; the check_zeroed branches of the *_init '
                'closures are proved equal to the single mode SInit).')
+def run_cellprobe(ctx, stats):
+    """the public API of UnsafeSyncCell (the primitives the translated functions are built from) on single cells, item types of 1..24 bytes
+    with and without drop glue: empties are never read / cloned / dropped, occupied cells dropped once, take_inner leaves an empty cell,
+    check_zeroed = all bytes zero, clone / clone_from in the four empty / occupied combinations"""
+    bindir, log = ctx.build_harness(('cellprobe',))
+    if bindir is None:
+        ctx.violation('cellprobe does not build against the current /repo tree', log[-3000:], no_input=True); return
+    rc, out = common.sh([os.path.join(bindir, 'cellprobe')], timeout=300)
+    m = re.search(r'ok cases=(\d+)', out)
+    if m:
+        ctx.notes['cell_probe'] = {'cases': int(m.group(1)), 'item_sizes': [1, 2, 3, 4, 8, 12, 16, 24]}; stats.steps += int(m.group(1)); return
+    mm = re.search(r'MISMATCH (.*)', out)
+    what = mm.group(1) if mm else 'probe failed: ' + out[-600:]
+    ctx.violation('UnsafeSyncCell, item type ' + what[:400], f'## replay: .build/cargo/debug/cellprobe\n## case: {what}\n', no_input=(mm is None))
+
 def c09_zst(ctx, seqrun, stats, divs):
+    run_cellprobe(ctx, stats)
     """zero-sized item types (outside the Model, which keeps a value per cell): exact drop ledger on rule-following histories"""
     bindir, log = ctx.build_harness(('zstprobe',))
     if bindir is None:
@@ -425,8 +441,8 @@ def c09_zst(ctx, seqrun, stats, divs):
     ctx.violation('zero-sized item type with a destructor (new_zeroed + *_init stores + pop_move): ' + what.split(' : ')[-1][:300],
                   f'## replay: .build/cargo/debug/zstprobe {ctx.seed} {n}\n## history: {what}\n', no_input=(mm is None))
 
-CHECKS['C08'] = LedgerCheck('C08', is_ledger, LEDGER_TEXT)
-CHECKS['C09'] = LedgerCheck('C09', is_ledger, LEDGER_TEXT + ' Zero-sized item types (no bytes: outside the Model): exact drop ledger on rule-following histories (zstprobe).', extra=c09_zst)
+CHECKS['C08'] = LedgerCheck('C08', is_ledger, LEDGER_TEXT + ' The cell primitives themselves: cellprobe (public API of UnsafeSyncCell on single cells, item sizes 1..24 bytes).', extra=lambda ctx, seqrun, stats, divs: run_cellprobe(ctx, stats))
+CHECKS['C09'] = LedgerCheck('C09', is_ledger, LEDGER_TEXT + ' Zero-sized item types (no bytes: outside the Model): exact drop ledger on rule-following histories (zstprobe). The cell primitives themselves: cellprobe.', extra=c09_zst)
 for pid in ('C08', 'C09'):
     CHECKS[pid].propfiles = [f'Props/{pid}.v', 'Props/DTie.v']   # D-tie: the ledger events of every store / take / clone in the translated source = the Model's
 
